@@ -55,6 +55,14 @@ def main():
         diff = diff_b.decode("utf-8", "replace")
         sh("git -C /repo worktree remove --force %s; git -C /repo worktree prune" % wt)
         prop = src_name.split("_")[0]
+        if not prop.startswith("C"):
+            # round 3: the property is named on the first line of notes.md ("breaks: Cxx")
+            try:
+                first = open(os.path.join(d, "notes.md")).read().strip().split("\n")[0]
+                mm = re.search(r"C\d\d", first)
+                prop = mm.group(0) if mm else "C00"
+            except OSError:
+                prop = "C00"
         own = os.path.exists(os.path.join(d, "info.json"))
         if own:
             prop = json.load(open(os.path.join(d, "info.json")))["prop"]
@@ -71,7 +79,7 @@ def main():
         fired = sorted(k for k, v in caught.items() if v["exit"] == 1)
         meta = {
             "name": name, "breaks_property": prop, "property_title": PROPS[prop]["title"],
-            "round": (2 if prefix == "r2_" else 1),
+            "round": (3 if prefix == "r3_" else 2 if prefix == "r2_" else 1),
             "origin": ("reverse of one of the repository repairs of DESIGN.md section 8 (a historical defect the baseline tests never noticed); written by the framework author" if own else
                        "written by an independent sub-agent that was given only the property text and a scratch worktree"),
             "needs_to_manifest": notes.strip()[:1500],
